@@ -35,18 +35,24 @@ class ShieldRepairerRegister(BaseRepairRegister):
         fit._subscribe(self, self._handler_map.keys())
 
     def get_rps(self, item, dmg_profile, reload):
+        # Nothing is repaired when there is no ship
+        if item is None:
+            return 0
         rps = 0
         for rep_item, rep_effect in self.__local_repairers:
             if item is not rep_item._solsys_carrier:
                 continue
             rps += rep_effect.get_rps(rep_item, reload)
-        proj_reg = (
-            self.__fit.solar_system._calculator.
-            _CalculationService__projections)
-        for rep_item, rep_effect in proj_reg.get_tgt_projectors(item):
-            if not isinstance(rep_effect, RemoteShieldRepairEffect):
-                continue
-            rps += rep_effect.get_rps(rep_item, reload)
+        # Fit which is not in any solar system receives no projected effects
+        solar_system = self.__fit.solar_system
+        if solar_system is not None:
+            proj_reg = (
+                solar_system._calculator.
+                _CalculationService__projections)
+            for rep_item, rep_effect in proj_reg.get_tgt_projectors(item):
+                if not isinstance(rep_effect, RemoteShieldRepairEffect):
+                    continue
+                rps += rep_effect.get_rps(rep_item, reload)
         if dmg_profile is not None:
             rps *= item._get_tanking_efficiency(
                 dmg_profile, item.resists.shield)
